@@ -311,3 +311,23 @@ VARIANTS += [
 VARIANTS += [
     V('C17', 'twin: aggregation as comprehension', IE, "        values = []\n        for feat in ranked_features:\n            interaction_tuple = (feat, feature)\n            if is_redundancy:\n                values.append(redundancy_dict.get(interaction_tuple, 0))\n            else:\n                values.append(relational_dict.get(interaction_tuple, 0))\n", "        score_dict = redundancy_dict if is_redundancy else relational_dict\n        values = [score_dict.get((feat, feature), 0) for feat in ranked_features]\n", expect='clean'),
 ]
+
+# ---------------------------------------------------------------- C04
+VARIANTS += [
+    V('C04', 'F2 reintroduced: whole buffer read', MI, "final_index_array = final_index_array[:index_offset].astype(np.int32)", "final_index_array = final_index_array.astype(np.int32)"),
+    V('C04', 'F3 reintroduced: diagonal test before sampling', MI, "    if approximation_factor < 1.0:\n        Y, X = stratified_subsampling(Y, X, approximation_factor, f_values)\n\n    # Diagonal entries (decided on the rows that are actually used)\n    if np.array_equal(X, Y):\n        cardinality_correction = False\n", "    # Diagonal entries\n    if np.array_equal(X, Y):\n        cardinality_correction = False\n\n    if approximation_factor < 1.0:\n        Y, X = stratified_subsampling(Y, X, approximation_factor, f_values)\n"),
+    V('C04', 'prefix by wrong cursor', MI, "final_index_array = final_index_array[:index_offset].astype(np.int32)", "final_index_array = final_index_array[:final_space_size].astype(np.int32)"),
+    V('C04', 'cursor advanced by quota', MI, "        index_offset += x_indices_len\n", "        index_offset += unique_samples_per_val\n"),
+    V('C04', 'suffix instead of prefix selection', MI, "x_indices = np.where(X == fval)[0][:unique_samples_per_val]", "x_indices = np.where(X == fval)[0][-unique_samples_per_val:]"),
+    V('C04', 'quota rounds up', MI, "unique_samples_per_val = int(final_space_size / len(_f_values_X))", "unique_samples_per_val = int(final_space_size / len(_f_values_X)) + 1"),
+    V('C04', 'random selection within stratum', MI, "x_indices = np.where(X == fval)[0][:unique_samples_per_val]", "x_indices = np.random.permutation(np.where(X == fval)[0])[:unique_samples_per_val]"),
+    V('C04', 'Y gathered with a different index', MI, "    Y = Y[final_index_array]\n", "    Y = Y[final_index_array[::-1]]\n"),
+    V('C04', 'return swapped', MI, "    X = X[final_index_array]\n    Y = Y[final_index_array]\n\n    return Y, X", "    X = X[final_index_array]\n    Y = Y[final_index_array]\n\n    return X, Y"),
+    V('C04', 'weights from the sample', MI, "    all_events = len(X)\n    f_values, f_value_counts = numba_unique(X)\n\n    if approximation_factor < 1.0:\n        Y, X = stratified_subsampling(Y, X, approximation_factor, f_values)\n", "    f_values, f_value_counts = numba_unique(X)\n\n    if approximation_factor < 1.0:\n        Y, X = stratified_subsampling(Y, X, approximation_factor, f_values)\n    all_events = len(X)\n    f_values, f_value_counts = numba_unique(X)\n"),
+    V('C04', 'result not scaled', MI, "    return approximation_factor * joint_entropy_core", "    return joint_entropy_core"),
+    V('C04', 'sampling guard <=', MI, "    if approximation_factor < 1.0:", "    if approximation_factor <= 1.0:"),
+    V('C04', 'ratio not forwarded', IE, "approximation_factor=np.float32(mi_stratified_sampling_ratio),", "approximation_factor=np.float32(1.0),"),
+    V('C04', 'quota==0 returns swapped', MI, "    if unique_samples_per_val == 0:\n        return Y, X", "    if unique_samples_per_val == 0:\n        return X, Y"),
+    V('C04', 'twin: zero-initialised int buffer', MI, "final_index_array = np.empty(final_space_size)", "final_index_array = np.empty(final_space_size, dtype=np.int64)", expect='clean'),
+    V('C04', 'twin: upper bound inlined', MI, "        second_offset = (index_offset + x_indices_len)\n        final_index_array[index_offset:second_offset] = x_indices", "        final_index_array[index_offset:index_offset + x_indices_len] = x_indices", expect='clean'),
+]
